@@ -703,3 +703,68 @@ var propRoll = vk.Register(&vk.Prop[RollCase]{Property: property, Name: "slowrol
 	}})
 
 func TestSlowRoll(t *testing.T) { propRoll.Run(t) }
+
+// ---- the weighted share of the previous window, exactly ----------------------------------------------------------------
+//
+// Sliding window with limits and windows of realistic size: p requests are admitted in one second of the first window
+// (the limit is at least p), then the clock moves into the second window so that r of its E seconds remain. The share of
+// the previous window is floor(p*r/E) - an integer computed exactly. Requests are sent until one is rejected: exactly
+// Max - floor(p*r/E) of them may reach the handler, not one more (binary floating point gets p*(r/E) one too low for
+// values like 90*(7/10)).
+
+type FloorCase struct {
+	Exp, Prev, Remain, Max int
+	Store                  string
+}
+
+func checkFloor(c FloorCase) vk.Verdict {
+	clockMu.Lock()
+	defer clockMu.Unlock()
+	vk.SetNow(7_000_000)
+	var st *vk.Storage
+	if c.Store != "memory" {
+		st = vk.NewStorage()
+	}
+	ran := 0
+	app := newLimiter(Case{Algo: "sliding", Exp: c.Exp, Max: c.Max}, st, func(fiber.Ctx) { ran++ })
+	app.Handler()
+	do := func() int { return vk.Do(app, "GET", fmt.Sprintf("/?k=a&lim=%d&st=200", c.Max)).Response.StatusCode() }
+	for j := 0; j < c.Prev; j++ {
+		do()
+	}
+	if ran != c.Prev {
+		return vk.Failf("%+v: %d of the first %d requests were admitted (the limit is %d)", c, ran, c.Prev, c.Max)
+	}
+	vk.Advance(uint32(2*c.Exp - c.Remain)) // the first window ended after Exp seconds; Remain seconds of the second one are left
+	share := c.Prev * c.Remain / c.Exp
+	want := c.Max - share
+	if want < 0 {
+		want = 0
+	}
+	before := ran
+	for j := 0; j < want+2; j++ {
+		do()
+	}
+	if got := ran - before; got != want {
+		return vk.Failf("%+v: %d requests in the previous window, %d of %d seconds of the current one left: the previous window weighs floor(%d*%d/%d) = %d, so %d of the limit %d are free - %d requests were admitted", c, c.Prev, c.Remain, c.Exp, c.Prev, c.Remain, c.Exp, share, want, c.Max, got)
+	}
+	frac := (c.Prev*c.Remain)%c.Exp == 0
+	return vk.Verdict{NonTrivial: share > 0 && want > 0, Classes: []string{fmt.Sprintf("exact-multiple:%v", frac), "store:" + c.Store}}
+}
+
+var propFloor = vk.Register(&vk.Prop[FloorCase]{Property: property, Name: "slidingshare", Check: checkFloor, Quick: 300, Thorough: 3000,
+	Gen: func(t *rapid.T) FloorCase {
+		c := FloorCase{Exp: rapid.SampledFrom([]int{10, 30, 49, 60, 100}).Draw(t, "exp"), Store: rapid.SampledFrom([]string{"memory", "vk"}).Draw(t, "store")}
+		c.Prev = rapid.IntRange(1, 100).Draw(t, "prev")
+		c.Remain = rapid.IntRange(1, c.Exp-1).Draw(t, "remain")
+		if rapid.Bool().Draw(t, "exactmultiple") {
+			// the cases binary floating point gets wrong are among those where p*r/E is a whole number
+			for c.Prev*c.Remain%c.Exp != 0 && c.Prev < 100 {
+				c.Prev++
+			}
+		}
+		c.Max = c.Prev + rapid.IntRange(0, 20).Draw(t, "headroom")
+		return c
+	}})
+
+func TestSlidingShare(t *testing.T) { propFloor.Run(t) }
